@@ -435,3 +435,13 @@ Definition inh_is_recorded (g : list rule) (s : st) : bool :=
                     | KAbstract => list_nat_eqb (inh s x) (recorded g (types s) x)
                     | _ => true
                     end) (seq 0 (length g)).
+
+(* ------------------------------------------------------------------ exact specification of the recorded lists *)
+(* no cycle through abstract rules: a rank decreases along references between abstract rules *)
+Definition acyclic_abstract (g : list rule) (K : nat -> kind) (rank : nat -> nat) : Prop :=
+  forall x y, K x = KAbstract -> In y (rule_refs g x) -> K y = KAbstract -> rank y < rank x.
+
+(* the declarative closure of the recorded lists *)
+Inductive recorded_reach (g : list rule) (K : nat -> kind) : nat -> nat -> Prop :=
+| rreach_refl x : recorded_reach g K x x
+| rreach_step x y z : K x = KAbstract -> In y (recorded g K x) -> recorded_reach g K y z -> recorded_reach g K x z.
